@@ -174,9 +174,31 @@ impl Expr {
     #[verifier::external_body] pub fn source_loc(&self) -> (r: Option<&Loc>) ensures r == (match self.source_loc { Some(l) => Some(&l), None => None }) { unimplemented!() }
     #[verifier::external_body] pub fn expr_kind(&self) -> (r: &ExprKind) ensures *r == self.expr_kind { unimplemented!() }
     /// "guaranteed never to error on evaluation" (ast/expr.rs; not verified)
-    /// `subexpressions().all(Lit | Unknown | Set | Var | Record)` (assumed in rules.rs to be the recursive predicate projectable())
-    pub uninterp spec fn spec_projectable(&self) -> bool;
-    #[verifier::external_body] pub fn is_projectable(&self) -> (r: bool) ensures r == self.spec_projectable() { unimplemented!() }
+    /// `expr_iterator::ExprIterator::new(self)` (assumed): yields exactly the nodes of the expression tree (is_sub), each as a reference
+    #[verifier::external_body] pub fn subexpressions(&self) -> (r: VxIter<&Expr>)
+        ensures forall|i: int| 0 <= i < r.items().len() ==> is_sub(*#[trigger] r.items()[i], *self),
+            forall|x: Expr| is_sub(x, *self) ==> exists|i: int| 0 <= i < r.items().len() && *#[trigger] r.items()[i] == x,
+    { unimplemented!() }
+}
+/// x is a node of the expression tree e (e itself, or a node of one of its operands / items / initialisers)
+pub open spec fn is_sub(x: Expr, e: Expr) -> bool
+    decreases e
+{
+    x == e || match e.expr_kind {
+        ExprKind::If { test_expr, then_expr, else_expr } => is_sub(x, *test_expr) || is_sub(x, *then_expr) || is_sub(x, *else_expr),
+        ExprKind::And { left, right } => is_sub(x, *left) || is_sub(x, *right),
+        ExprKind::Or { left, right } => is_sub(x, *left) || is_sub(x, *right),
+        ExprKind::UnaryApp { arg, .. } => is_sub(x, *arg),
+        ExprKind::BinaryApp { arg1, arg2, .. } => is_sub(x, *arg1) || is_sub(x, *arg2),
+        ExprKind::ExtensionFunctionApp { args, .. } => exists|i: int| 0 <= i < args@.len() && is_sub(x, #[trigger] args@[i]),
+        ExprKind::GetAttr { expr, .. } => is_sub(x, *expr),
+        ExprKind::HasAttr { expr, .. } => is_sub(x, *expr),
+        ExprKind::Like { expr, .. } => is_sub(x, *expr),
+        ExprKind::Is { expr, .. } => is_sub(x, *expr),
+        ExprKind::Set(items) => exists|i: int| 0 <= i < items@.len() && is_sub(x, #[trigger] items@[i]),
+        ExprKind::Record(m) => exists|k: SmolStr| m@.contains_key(k) && is_sub(x, #[trigger] m@[k]),
+        _ => false,
+    }
 }
 #[verifier::external_body] pub struct ExpressionConstructionError { _p: u8 }
 impl std::fmt::Debug for ExpressionConstructionError { #[verifier::external_body] fn fmt(&self, f: &mut std::fmt::Formatter<'_>) -> std::fmt::Result { unimplemented!() } }
